@@ -88,10 +88,10 @@ func c07r1(c *Ctx, id string) {
 			c.OK(id, "handler:"+name, g.Pos(), "canForward(%s) dominates every effect of the handler", arg)
 		}
 	}
-	gateOAE(c, id, oi)
+	gateOAE(c, id, oi, "all")
 	gateArgsRule(c, id, oi)
-	chk := w.Method("couchbase", oi.typ.Obj().Name(), "checkPersistSeqNo")
-	c.need(chk != nil, id, "observer.checkPersistSeqNo")
+	chk := oi.persist
+	c.need(chk != nil, id, "the persistence test: a (uint64) bool observer method polled in a loop under the gate (checkPersistSeqNo)")
 	// the wait loop: every edge leaving the loop that polls checkPersistSeqNo is the true edge of that test
 	var wait *ssa.Function
 	for _, fn := range w.ModFuncs {
@@ -131,10 +131,9 @@ func c07r1(c *Ctx, id string) {
 }
 
 func c07r2(c *Ctx, id string) {
-	w := c.W
 	oi := observerInfo(c, id)
-	fn := w.Method("couchbase", oi.typ.Obj().Name(), "checkPersistSeqNo")
-	c.need(fn != nil, id, "observer.checkPersistSeqNo")
+	fn := oi.persist
+	c.need(fn != nil, id, "the persistence test: a (uint64) bool observer method polled in a loop under the gate (checkPersistSeqNo)")
 	recv, p := fn.Params[0].Name(), fn.Params[1].Name()
 	h := &Harness{Fn: fn, Groups: []Group{{Atoms: []string{p, recv + ".persistSeqNo"}, Unsigned: true}}, Bools: []string{recv + ".closed"}}
 	c.oae(id, fname(fn), fn.Pos(), h, func(st *State, out *Outcome) string {
@@ -419,15 +418,14 @@ func c07r6(c *Ctx, id string) {
 // gateOAE evaluates canForward exhaustively (shared by C07.R1, C08.R5, C03.R2, C13.R7). The persistence wait
 // may be a method of its own or a loop inside the gate; in both cases it is recognised by the persistence
 // test (checkPersistSeqNo) it polls.
-func gateOAE(c *Ctx, id string, oi *obsInfo) {
+func gateOAE(c *Ctx, id string, oi *obsInfo, aspect string) {
 	w := c.W
 	gate := oi.gate
 	recv := gate.Params[0].Name()
 	seqP, ctlP := gate.Params[1].Name(), gate.Params[2].Name()
 	dis := recv + ".config.RollbackMitigation.Disabled"
-	chk := w.Method("couchbase", oi.typ.Obj().Name(), "checkPersistSeqNo")
-	need := w.Method("couchbase", oi.typ.Obj().Name(), "needCatchup")
-	c.need(chk != nil && need != nil, id, "observer.checkPersistSeqNo / needCatchup")
+	chk, need := oi.persist, oi.need
+	c.need(chk != nil && need != nil, id, "the persistence test polled under the gate and the catch-up filter the gate consults (checkPersistSeqNo / needCatchup)")
 	// the function that polls the persistence test in a loop
 	var wait *ssa.Function
 	for _, fn := range w.ModFuncs {
@@ -447,8 +445,23 @@ func gateOAE(c *Ctx, id string, oi *obsInfo) {
 	if wait == gate {
 		waitName = fname(chk)
 	}
-	h := &Harness{Fn: gate, Bools: []string{dis, ctlP, "need"}, Groups: []Group{{Atoms: []string{seqP}, Unsigned: true}},
+	// the observer's own boolean switches are declared atoms, so a gate that reads them stays decidable and is judged
+	// by the aspect's specification in every combination
+	var extra []string
+	if st, ok := oi.typ.Underlying().(*types.Struct); ok {
+		for i := 0; i < st.NumFields(); i++ {
+			if isBool(st.Field(i).Type()) {
+				extra = append(extra, recv+"."+st.Field(i).Name())
+			}
+		}
+	}
+	closedAtom := recv + ".closed"
+	h := &Harness{Fn: gate, Bools: append([]string{dis, ctlP, "need"}, extra...), Groups: []Group{{Atoms: []string{seqP}, Unsigned: true}},
 		NoInline: noinl, Quiet: []string{"time.Sleep"},
+		Valid: func(st *State) bool {
+			// the filter aspect (what reaches the consumer) is about a stream that is open
+			return aspect != "filter" || !st.B(closedAtom)
+		},
 		Oracle: func(st *State, name string, args []AV, res *types.Tuple) ([]AV, bool) {
 			switch name {
 			case fname(need):
@@ -482,11 +495,16 @@ func gateOAE(c *Ctx, id string, oi *obsInfo) {
 				}
 			}
 		}
-		if st.B(dis) != (nw == 0) || nw > 1 {
-			return fmt.Sprintf("persistence wait entered %d times with Disabled=%v", nw, st.B(dis))
+		if aspect != "filter" {
+			if st.B(dis) != (nw == 0) || nw > 1 {
+				return fmt.Sprintf("persistence wait entered %d times with Disabled=%v", nw, st.B(dis))
+			}
+			if nw == 1 && nn == 1 && firstNeed < firstWait {
+				return "catch-up filter consulted before the persistence wait"
+			}
 		}
-		if nw == 1 && nn == 1 && firstNeed < firstWait {
-			return "catch-up filter consulted before the persistence wait"
+		if aspect == "wait" {
+			return ""
 		}
 		if st.B(ctlP) && nn > 0 {
 			return "catch-up state consulted (and possibly consumed) for a control event"
@@ -500,7 +518,9 @@ func gateOAE(c *Ctx, id string, oi *obsInfo) {
 			return fmt.Sprintf("returns %s, expected isControl ∨ ¬needCatchup = %v", avString(out.Ret[0]), want)
 		}
 		return ""
-	}, "wait(seq) ⇔ ¬Disabled, before the filter; needCatchup(seq) consulted ⇔ ¬isControl; result = isControl ∨ ¬needCatchup")
+	}, map[string]string{"all": "wait(seq) ⇔ ¬Disabled, before the filter; needCatchup(seq) consulted ⇔ ¬isControl; result = isControl ∨ ¬needCatchup",
+		"wait":   "wait(seq) ⇔ ¬Disabled, in every state of the observer's switches, before the filter",
+		"filter": "on an open stream: needCatchup(seq) consulted ⇔ ¬isControl; result = isControl ∨ ¬needCatchup"}[aspect])
 }
 
 // gateArgsRule: which events are "control" for the gate — exactly the two that carry no document and (re)define the
